@@ -20,8 +20,10 @@ not see the awaited flag; the accesses inside the wfcqueue that L2 abstracts).  
 * `tframe`     : every label that is not thread `t`'s own leaves `tpc t` unchanged, except `fork u` (the child has only
   the forking thread) and `cWake` (the worker's FUTEX_WAKE moves the sleeping waiter of the completion from `wcAsleep`
   to `wcWaitLd`: `tframe_cWake`);
-* `wproj_lift`, `wframe` : the same for the worker; only `wake t` of a waker (sleeping worker → `waitLd`:
-  `wframe_wake`), `fork` and `createWorker` touch the worker's pc.
+* `wframe` : labels of the application threads and of the memory system leave the worker's `wpc` and `cnt` unchanged; only
+  `wake t` of a waker (sleeping worker → `waitLd`: `wframe_wake`), `fork` and `createWorker` touch the worker's pc.
+  (The lift lemma of the worker's automaton against `Wq.step` is NOT proved here: `WLPc.abs` only states the intended
+  correspondence of pcs; the properties of the automaton itself are `wstep_paused_quiescent`, `wstep_run`.)
 -/
 set_option linter.unusedSimpArgs false
 set_option linter.unusedVariables false
@@ -463,5 +465,32 @@ theorem wstep_run (ls ls' : WLState) (c : Loc) (h : wstep ls (.run c) = some ls'
     · simp at h
   | «at» p => cases p <;> simp [wstep] at h
   | _ => simp [wstep] at h
+
+/-- the labels of the worker thread -/
+def isWorkerLabel : Label → Bool
+  | .wStart | .wDec0 | .wTop | .wPause | .wSeeResume | .wUnpause | .wSplice | .wRunBegin _ | .wRunEnd
+  | .cSub | .cLd | .cSt | .cFlush | .cWake | .cPut
+  | .wInvDone | .wSub | .wStopChk | .wEmptyChk | .wRtChk | .wWaitLd | .wWaitFx _ | .wSpurious | .wDec | .wExitSt => true
+  | _ => false
+
+/-- **frame** for the worker: a label of an application thread or of the memory system, other than a waker's
+FUTEX_WAKE, `fork` and `createWorker`, leaves the worker's pc, `cbcount`, private list and current work unchanged -/
+theorem wframe (c : Cfg) (s s' : State) (L : Label) (st : step c s L = some s') (hw : isWorkerLabel L = false)
+    (hk : ∀ t, L ≠ .wake t) (hf : ∀ t, L ≠ .fork t) (hc : ∀ t, L ≠ .createWorker t) :
+    s'.wpc = s.wpc ∧ s'.cnt = s.cnt ∧ s'.batch = s.batch ∧ s'.cur = s.cur := by
+  cases L <;> simp only [step] at st <;> (repeat' split at st) <;>
+    first
+    | (simp at st; done)
+    | (simp only [Option.some.injEq] at st; subst st; simp_all [isWorkerLabel])
+
+/-- a waker's FUTEX_WAKE moves a sleeping worker to the re-check of the futex word, and does nothing else to it -/
+theorem wframe_wake (c : Cfg) (s s' : State) (t : Nat) (st : step c s (.wake t) = some s') :
+    s'.wpc = (if s.wpc = .asleep then .waitLd else s.wpc) ∧ s'.cnt = s.cnt ∧ s'.batch = s.batch ∧ s'.cur = s.cur := by
+  simp only [step] at st
+  split at st
+  · split at st
+    · simp only [Option.some.injEq] at st; subst st; simp
+    · simp at st
+  · simp at st
 
 end UrcuVerif.Src.WqL
